@@ -154,6 +154,36 @@ def mutate_str(c, rng):
         out.append(dict(c, s=s[:i] + s[i+1:]))
     return out
 
+# ---- slices ----
+def gen_slice(tier, rng):
+    out = []
+    ss = [s for s in strings("quick", rng, 100) if len(s) <= 3] if tier == "quick" else strings("quick", rng, 2000)
+    ss = rng.sample(ss, min(len(ss), 500 if tier == "quick" else 6000)) + ["*a*", "*ab?c*", "a\\*b", "ab*cd", "*", "**", "a*"]
+    for s in ss:
+        opts = [None, 0, 1, 2, 3, -1, -2, 5, -6]
+        picks = [(1, None), (None, -1), (1, -1)] + [(rng.choice(opts), rng.choice(opts)) for _ in range(4)]
+        for a, b in picks:
+            out.append({"s": s, "start": a, "stop": b})
+    return out
+
+def coz(x):
+    return "None" if x is None else f"(Some ({x})%Z)"
+
+def slice_to_coq(c, r):
+    if "exc" in r:
+        o = "(Crash 7)" if r["exc"] == "IndexError" else ("(SigmaErr 99)" if r.get("sigma") else "(Crash 1)")
+    else:
+        p = cparts(r["parts"])
+        if p is None: return None
+        o = f"(Ok {p})"
+    return f"({cstr(c['s'])}, {coz(c['start'])}, {coz(c['stop'])}, {o})"
+
+def known_slice(c, r):
+    # both bounds given: the early-return path of __getitem__ re-parses a substring of one plain part
+    if c["start"] is not None and c["stop"] is not None and any(ch in c["s"] for ch in "*?\\"):
+        return "D31-inner-slice-reparses-plain-part"
+    return None
+
 REQ = ["Base.Chars", "Base.Outcome", "Model.SString", "Spec.Items", "Run.C05run"]
 PROPERTY = Property(
     pid="C05", props_file="Props/C05.v",
@@ -161,6 +191,7 @@ PROPERTY = Property(
         Suite("plain", gen_plain, "run_plain", REQ, "judge_plain", plain_to_coq, known=known_plain, mutate=mutate_str),
         Suite("convert", gen_convert, "run_convert", REQ, "judge_convert", convert_to_coq, known=known_convert, mutate=mutate_str),
         Suite("regex", gen_regex, "run_regex", REQ, "judge_regex", regex_to_coq, mutate=mutate_str),
+        Suite("slice", gen_slice, "run_slice", REQ + ["Model.Slice"], "judge_slice", slice_to_coq, known=known_slice, mutate=mutate_str),
     ],
     rule="strings over {\\ * ? \" ' : & % . ( [ a B space}: exhaustive up to length 3 (quick) / 4 (thorough), longer over a reduced alphabet, "
          "random up to 14 incl. non-ASCII; x escaping configurations (13 fixed incl. the shipped test backend, plus random); regex form matched with "
